@@ -452,6 +452,48 @@ func c07RPC(r *core.Run) {
 						key := core.ShortKey(f.Obj) + " : xid given to tm.SetXID"
 						r.Check(len(bad) == 0, "C07.rpc", key, w.Pos(x.Pos()), "derives only from metadata reads under the accepted key constants",
 							"the xid installed on the callee side also derives from: "+strings.Join(uniq(bad), "; ")+" — it would not arrive unchanged")
+						// the xid is installed whatever its text: the conditions guarding this call compare the xid only
+						// with "" / another value / its length — never pass it to a predicate on its content
+						{
+							xv := core.ObjOf(info, x.Args[1])
+							filtered := ""
+							var stack []ast.Node
+							ast.Inspect(f.Decl.Body, func(m ast.Node) bool {
+								if m == nil {
+									stack = stack[:len(stack)-1]
+									return true
+								}
+								stack = append(stack, m)
+								if m != ast.Node(x) {
+									return true
+								}
+								for _, anc := range stack {
+									ifs, ok := anc.(*ast.IfStmt)
+									if !ok {
+										continue
+									}
+									ast.Inspect(ifs.Cond, func(c ast.Node) bool {
+										call, ok := c.(*ast.CallExpr)
+										if !ok {
+											return true
+										}
+										if id, ok := ast.Unparen(call.Fun).(*ast.Ident); ok && id.Name == "len" {
+											return true
+										}
+										for _, a := range call.Args {
+											if xv != nil && mentions(info, a, xv) {
+												filtered = core.ExprString(call)
+											}
+										}
+										return true
+									})
+								}
+								return true
+							})
+							r.Sites++
+							r.Check(filtered == "", "C07.rpc", core.ShortKey(f.Obj)+" : the xid is installed whatever its text", w.Pos(x.Pos()), "guarded by emptiness / equality tests only",
+								"whether the carried xid is installed depends on "+filtered+", a predicate on its text: an xid of another shape (IPv6 coordinator address, bare id) is silently dropped and the callee starts a transaction of its own instead of joining the caller's")
+						}
 						// fresh context: the reaching definition of the context argument is tm.InitSeataContext(...)
 						def := reachingCallee(w, f, x, 0)
 						r.Check(core.IsPkgFunc(def, pTM, "InitSeataContext"), "C07.rpc", core.ShortKey(f.Obj)+" : callee context is fresh", w.Pos(x.Pos()), "tm.InitSeataContext(...) result: role is not Launcher",
